@@ -7,7 +7,7 @@ under contracts/ that #includes the real sources of the repository.
 Exit codes of a check: 0 every obligation discharged, 1 violation, 2 undecided
 (tool failure, extraction broke, timeout, vacuity) -- never reported as violation.
 """
-import json, os, re, resource, shutil, subprocess, sys, threading, time, hashlib
+import json, os, re, resource, shutil, subprocess, sys, threading, time, hashlib, signal, atexit
 from concurrent.futures import ThreadPoolExecutor
 
 VERIF = os.path.dirname(os.path.dirname(os.path.abspath(__file__)))
@@ -89,12 +89,34 @@ def _limits(mem_gb):
     return f
 
 
+_LIVE = set()
+
+
+def _kill_all(*a):
+    for pid in list(_LIVE):
+        try:
+            os.killpg(pid, 9)
+        except Exception:
+            pass
+    if a:
+        os._exit(2)
+
+
+atexit.register(_kill_all)
+try:
+    signal.signal(signal.SIGTERM, _kill_all)
+    signal.signal(signal.SIGINT, _kill_all)
+except ValueError:
+    pass
+
+
 def run(cmd, timeout, mem_gb=8, cwd=None, stdout_path=None):
     t0 = time.time()
     out = open(stdout_path, "wb") if stdout_path else subprocess.PIPE
     try:
         p = subprocess.Popen(cmd, stdout=out, stderr=subprocess.PIPE if stdout_path else subprocess.STDOUT,
                              cwd=cwd, preexec_fn=_limits(mem_gb))
+        _LIVE.add(p.pid)
         try:
             so, se = p.communicate(timeout=timeout)
         except subprocess.TimeoutExpired:
@@ -107,6 +129,7 @@ def run(cmd, timeout, mem_gb=8, cwd=None, stdout_path=None):
     finally:
         if stdout_path:
             out.close()
+    _LIVE.discard(p.pid)
     text = (so or b"").decode("utf-8", "replace") + (se or b"").decode("utf-8", "replace")
     return p.returncode, text, time.time() - t0
 
@@ -239,50 +262,57 @@ def pipeline(job, trace_props=None, tag=""):
                 raise Undecided("goto-instrument failed: " + text[-800:])
             info["stages"]["goto-instrument"] = round(dt, 2)
             cur = b_gb
-        out_json = os.path.join(wd, "result.json")
-        cmd = ["cbmc", cur, "--json-ui", "--verbosity", "6", "--drop-unused-functions", "--object-bits", "12"] + job.safety + job.cbmc
+        # text UI for the all-properties run (the JSON UI builds a trace for every failed property, which made a
+        # run with 20 failures five times slower); JSON UI only for the single-property trace run of a replay
+        out_txt = os.path.join(wd, "result.json" if trace_props else "result.txt")
+        cmd = ["cbmc", cur, "--verbosity", "6", "--drop-unused-functions", "--object-bits", "12"] + job.safety + job.cbmc
         if job.solver:
             cmd += ["--" + job.solver]
         if trace_props:
-            cmd += ["--trace"]
+            cmd += ["--json-ui", "--trace"]
             for p in trace_props:
                 cmd += ["--property", p]
-        rc, text, dt = run(cmd, job.timeout, mem_gb=job.mem_gb, stdout_path=out_json)
+        rc, text, dt = run(cmd, job.timeout, mem_gb=job.mem_gb, stdout_path=out_txt)
         log.write("$ %s\nrc=%s %.1fs\n%s\n" % (" ".join(cmd), rc, dt, text[-2000:]))
         info["stages"]["cbmc"] = round(dt, 2)
         info["checker_cmd"] = " ".join(cmd).replace(WORK + "/", "work/")
         if rc is None:
             raise Undecided("cbmc " + text)
-        try:
-            doc = json.load(open(out_json))
-        except Exception as e:
-            raise Undecided("cbmc produced no parsable result (rc=%s; out of memory or crash): %s" % (rc, text[-300:]))
-        res = None
-        msgs = []
-        for el in doc:
-            if isinstance(el, dict):
-                if "result" in el:
-                    res = el["result"]
-                if el.get("messageType") in ("ERROR", "WARNING"):
-                    msgs.append(el.get("messageText", ""))
-        if res is None:
-            raise Undecided("cbmc gave no result table (rc=%s): %s" % (rc, " | ".join(msgs)[-600:]))
-        for m in msgs:
-            if "ignoring" in m:
-                raise Undecided("back end ignored a quantifier: " + m)
         obls = []
-        for r in res:
-            sl = r.get("sourceLocation", {})
-            st = r.get("status")
-            fn = sl.get("function") or ""
-            if fn.startswith("h_") and fn != job.harness:
-                continue            # another harness of the same TU
-            o = Obligation(job.name, r.get("property"), r.get("description", ""), st,
-                           sl.get("function"), sl.get("line"), sl.get("file"), r.get("trace"))
-            obls.append(o)
+        if trace_props:
+            try:
+                doc = json.load(open(out_txt))
+            except Exception as e:
+                raise Undecided("cbmc produced no parsable result (rc=%s): %s" % (rc, text[-300:]))
+            for el in doc:
+                if isinstance(el, dict) and "result" in el:
+                    for r in el["result"]:
+                        sl = r.get("sourceLocation", {})
+                        obls.append(Obligation(job.name, r.get("property"), r.get("description", ""), r.get("status"),
+                                               sl.get("function"), sl.get("line"), sl.get("file"), r.get("trace")))
+            return obls, info
+        body = open(out_txt, errors="replace").read()
+        if "ignoring" in body and "forall" in body:
+            raise Undecided("back end ignored a quantifier")
+        if "** Results:" not in body or not re.search(r"^VERIFICATION (SUCCESSFUL|FAILED)", body, re.M):
+            tail = body[-500:].replace("\n", " | ")
+            raise Undecided("cbmc gave no result table (rc=%s; out of memory, crash or conversion error): %s %s" % (rc, tail, text[-300:]))
+        cur_file = cur_fn = None
+        for ln in body[body.index("** Results:"):].split("\n"):
+            m = re.match(r"^(\S.*) function (\S+)$", ln)
+            if m:
+                cur_file, cur_fn = m.group(1), m.group(2)
+                continue
+            m = re.match(r"^\[([^\]]+)\] (?:line (\d+) )?(.*): (SUCCESS|FAILURE|UNKNOWN|ERROR)$", ln)
+            if m:
+                fn = cur_fn or ""
+                if fn.startswith("h_") and fn != job.harness:
+                    continue            # another harness of the same TU
+                obls.append(Obligation(job.name, m.group(1), m.group(3), m.group(4), fn, m.group(2), cur_file))
+        m = re.search(r"Runtime Solver: ([\d.]+)s", body)
+        info["solver_s"] = sum(float(x) for x in re.findall(r"Runtime Solver: ([\d.e+-]+)s", body))
+        info["symex_s"] = sum(float(x) for x in re.findall(r"Runtime Symex: ([\d.e+-]+)s", body))
         info["wall"] = round(time.time() - t0, 2)
-        rt = [el for el in doc if isinstance(el, dict) and "runtime" in str(el.get("messageText", "")).lower()]
-        info["solver_msgs"] = [el["messageText"] for el in rt][-3:]
         return obls, info
     finally:
         log.close()
